@@ -233,6 +233,12 @@ def run_rules(mod, ctx: Ctx, only: Optional[set[str]] = None) -> None:
         if os.environ.get("SA_NO_FLAGS") != "1" and rep["inlined"]:
             inline_test_flags_repo(ctx.repo)
         n_canon += canon_repo(ctx.repo)
+        if os.environ.get("SA_NO_ALIAS") != "1":
+            from .canon2 import dead_alias_repo
+
+            n_da = dead_alias_repo(ctx.repo)
+            if n_da:
+                ctx.note(f"copies of a name that is dead afterwards renamed back (sa/canon2.py C18): {n_da}")
         if os.environ.get("SA_NO_THREAD") != "1":
             from .canon2 import thread_none_tests_repo
 
